@@ -330,10 +330,6 @@ func (p *Program) globalHavoc(ex *Exec, st *State, g *ssa.Global) {
 	st.cells[c] = ex.freshVal(st, "g_"+g.Name(), c.typ, true)
 }
 
-func (p *Program) mapLookup(f *frame, st *State, x *ssa.Lookup, base Val) (Val, bool) {
-	return nil, false
-}
-
 func (p *Program) sortedKeys() []string {
 	var ks []string
 	for k := range p.funcs {
